@@ -10,10 +10,12 @@ repairs S11 (`HasCell.cell`), S12 (`FixedCell.cell`), S13 (`Grid2DMovingAgent.mo
 
 ## State (explicit, for C19)
 
-* `Space` — what is fixed once the space object exists:
+* `Space` — what no agent operation changes:
   `cells` (keys of `space._cells`, in dict order), `conn c` (`Cell.connections` of cell `c`: key ↦ cell,
-  in dict order), `cap c` (`Cell.capacity`), `isGrid` (a `Grid`: it has the `empty` property layer and
-  the try-random search strategy).
+  in dict order; edited only by `Cell.connect` / `Cell.disconnect`, see `connectSp` / `disconnectSp` and the
+  histories `DOp`), `cap c` (`Cell.capacity`), `isGrid` (a `Grid`: it has the `empty` property layer and
+  the try-random search strategy), `coordKey c` (`cell.coordinate` used as a dict key — the default key of
+  `Cell.connect`; `none` if it is unhashable).
 * `State` — what operations change:
   `occ c` (`Cell._agents`, a list, append at the end), `flag c` (the value last stored into
   `cell.empty`: for a grid cell an entry of the `empty` property layer — `some true` initially —,
@@ -40,6 +42,10 @@ structure Space where
   conn : Cid → List (Key × Cid)
   cap : Cid → Option Nat
   isGrid : Bool
+  /-- `cell.coordinate` as a key of `connections` (`Cell.connect(other)` without a key uses `other.coordinate`):
+      the coordinate tuple of a grid cell, the node of a `Network` cell; `none` for a `VoronoiGrid` cell built from
+      a list of lists, whose coordinate is a `list` (unhashable: `TypeError`) -/
+  coordKey : Cid → Option Key := fun c => some c
 
 /-- cells `[0] … [n-1]` of a `Network` on nodes 0..n-1 / a `VoronoiGrid` on n centroids -/
 def rangeCoords (n : Nat) : List Cid := (List.range n).map fun (i : Nat) => [(i : Int)]
@@ -55,7 +61,19 @@ def netSpace (directed : Bool) (n : Nat) (edges : List (Nat × Nat)) (cap : Opti
 /-- a `VoronoiGrid` on n centroids whose triangulation exported the given triangles
     (`capacity_function` constant `cap`) -/
 def vorSpace (n : Nat) (tris : List (Nat × Nat × Nat)) (cap : Option Nat) : Space :=
-  { cells := rangeCoords n, conn := vorConn tris, cap := fun _ => cap, isGrid := false }
+  { cells := rangeCoords n, conn := vorConn tris, cap := fun _ => cap, isGrid := false, coordKey := fun _ => none }
+
+/-- `round_float`, the default `capacity_function` of `VoronoiGrid`: `int(area * 500)`, for the exact area `num/den`
+    (IEEE rounding of the float area is assumed away; the check compares on point sets where it cannot matter) -/
+def roundFloat (num den : Nat) : Nat := num * 500 / den
+
+/-- a `VoronoiGrid` with the default `capacity_function`: `_build_cell_polygons` overwrites every cell's capacity with
+    `round_float(polygon_area)`; `areas[i]` is the exact area of the i-th Voronoi cell as a fraction -/
+def vorSpaceAreas (n : Nat) (tris : List (Nat × Nat × Nat)) (areas : List (Nat × Nat)) : Space :=
+  { cells := rangeCoords n, conn := vorConn tris, isGrid := false, coordKey := fun _ => none,
+    cap := fun c => match c with
+      | [i] => if 0 ≤ i then (areas[i.toNat]?).map fun a => roundFloat a.1 a.2 else none
+      | _ => none }
 
 structure State where
   occ : Cid → List Aid
@@ -76,6 +94,7 @@ inductive Err where
   | index     -- IndexError (choice from an empty sequence)
   | script    -- the scripted random source of the harness ran out of draws
   | noAgent   -- the line names an agent that was never created (harness-level)
+  | type      -- TypeError (an unhashable connection key)
 deriving Repr, DecidableEq
 
 inductive Res where
@@ -293,5 +312,42 @@ def step (sp : Space) (s : State) : Op → State × Res
 def run (sp : Space) (s : State) : List Op → State
   | [] => s
   | op :: ops => run sp (step sp s op).1 ops
+
+/-! ### histories that also edit connections (`Cell.connect` / `Cell.disconnect` after construction) -/
+
+/-- `space[c].connect(space[c2], key)`: `connections[key] = other` on cell `c` only -/
+def connectSp (sp : Space) (c c2 : Cid) (key : Key) : Space := { sp with conn := connectConn sp.conn c c2 key }
+
+/-- `space[c].disconnect(space[c2])` -/
+def disconnectSp (sp : Space) (c c2 : Cid) : Space := { sp with conn := disconnectConn sp.conn c c2 }
+
+/-- an operation of a history that may edit connections between the agent operations -/
+inductive DOp where
+  | op (o : Op)
+  | connect (c c2 : Cid) (key : Option Key)    -- `space[c].connect(space[c2], key)`; `none`: the default key
+  | disconnect (c c2 : Cid)                    -- `space[c].disconnect(space[c2])`
+deriving Repr, DecidableEq
+
+/-- the edit a `connect` / `disconnect` line makes, or the exception it raises (`space[…]` of a coordinate that
+    is no cell: KeyError; default key of an unhashable coordinate: TypeError); the occupancy state is never touched -/
+def editSp (sp : Space) : DOp → Space × Res
+  | .op _ => (sp, .ok)
+  | .connect c c2 key =>
+    if c ∈ sp.cells ∧ c2 ∈ sp.cells then
+      match (match key with | some k => some k | none => sp.coordKey c2) with
+      | some k => (connectSp sp c c2 k, .ok)
+      | none => (sp, .err .type)
+    else (sp, .err .key)
+  | .disconnect c c2 =>
+    if c ∈ sp.cells ∧ c2 ∈ sp.cells then (disconnectSp sp c c2, .ok) else (sp, .err .key)
+
+def dstep (sp : Space) (s : State) : DOp → (Space × State) × Res
+  | .op o => ((sp, (step sp s o).1), (step sp s o).2)
+  | e => (((editSp sp e).1, s), (editSp sp e).2)
+
+/-- a history with connection edits: the space (its connections) and the occupancy state after it -/
+def drun (sp : Space) (s : State) : List DOp → Space × State
+  | [] => (sp, s)
+  | o :: os => drun (dstep sp s o).1.1 (dstep sp s o).1.2 os
 
 end Mesa.Cells
